@@ -177,7 +177,7 @@ pub fn run(ctx: &Ctx, rep: &mut Report) {
   }
   let mut rng = ctx.rng("c02");
   let files = corpus::shard(&corpus::load_all(), ctx.shard, ctx.nshards);
-  let per_file = if ctx.thorough { 2500 } else { 400 };
+  let per_file = if ctx.thorough { 2500 } else { 1200 };
   for f in &files {
     run_file(f, per_file, &mut rng, rep);
   }
